@@ -84,7 +84,7 @@ v("c03-start-after-lowerbound", {"C03", "C13"}, (MFD, "for i in range(self.get_l
 v("c03-range-off-by-one", {"C03"}, (MFD, "for i in range(self.get_lowerbound_k(), self.G.number_of_edges() + len(self.subpath_constraints) + 1):", "for i in range(self.get_lowerbound_k(), self.G.number_of_edges() + len(self.subpath_constraints)):", 1))
 v("c03-range-without-constraints", {"C03"}, (MFD, "for i in range(self.get_lowerbound_k(), self.G.number_of_edges() + len(self.subpath_constraints) + 1):", "for i in range(self.get_lowerbound_k(), self.G.number_of_edges() + 1):", 1))
 v("c03-width-without-ignore", {"C03", "C09"}, (MFD, "stG.get_width(edges_to_ignore=stG.source_sink_edges.union(self.edges_to_ignore))", "stG.get_width()", 1))
-v("c03-lowerbound-sum", {"C03"}, (MFD, "self._lowerbound_k = max(self._lowerbound_k, math.ceil(math.log2(len(all_weights))))", "self._lowerbound_k = self._lowerbound_k + math.ceil(math.log2(len(all_weights)))", 1))
+v("c03-lowerbound-sum", {"C03"}, (MFD, "self._lowerbound_k = max(self._lowerbound_k, math.ceil(math.log2(len(all_weights))) if all_weights else 0)", "self._lowerbound_k = self._lowerbound_k + (math.ceil(math.log2(len(all_weights))) if all_weights else 0)", 1))
 v("c03-given-weights-adopted-unconditionally", {"C03", "C05"}, (MFD, "                if len(self._given_weights_model.get_solution(remove_empty_paths=True)[\"paths\"]) == i:\n                    fd_model = self._given_weights_model",
                                                                "                if len(self._given_weights_model.get_solution(remove_empty_paths=True)[\"paths\"]) >= i:\n                    fd_model = self._given_weights_model", 1))
 v("c03-exit", {"C03", "C13"}, (MFD, "            utils.logger.info(f\"{__name__}: did NOT find a min gen set solution\")\n", "            utils.logger.info(f\"{__name__}: did NOT find a min gen set solution\")\n            exit(0)\n", 1))
@@ -207,8 +207,8 @@ v("benign-mccormick-rows-reordered", B, (SW, "        self.add_constraint(produc
                                            "        self.add_constraint(product_var >= lb * binary_var, name=name + \"_b\")\n        self.add_constraint(ub * binary_var >= product_var, name=name + \"_a\")\n", 1))
 v("benign-extra-logging", B, (MFD, "            utils.logger.info(f\"{__name__}: iteration with k = {i}\")\n", "            utils.logger.info(f\"{__name__}: iteration with k = {i}\")\n            utils.logger.debug(f\"{__name__}: still searching\")\n", 1))
 v("benign-value-local-in-validation", B, (SSG, "            if not (data[flow_attr] >= 0) or data[flow_attr] == float(\"inf\"):\n", "            value_here = data[flow_attr]\n            if not (value_here >= 0) or value_here == float(\"inf\"):\n", 1))
-v("benign-edge-attr-idiom", B, (KFD, "        for u, v, data in self.G.edges(data=True):\n            if (u, v) in self.edges_to_ignore:\n                continue\n            # float(): the solver's `==` accepts Python numbers only, not numpy integer or float32 scalars\n            f_u_v = float(data[self.flow_attr])\n\n            self.solver.add_constraint(\n                self.solver.quicksum(self.solution_weights_superset[i]",
-                                  "        for u, v in self.G.edges():\n            if (u, v) in self.edges_to_ignore:\n                continue\n            f_u_v = float(self.G[u][v][self.flow_attr])\n\n            self.solver.add_constraint(\n                self.solver.quicksum(self.solution_weights_superset[i]", 1))
+v("benign-edge-attr-idiom", B, (KFD, "        for u, v, data in self.G.edges(data=True):\n            if (u, v) in self.edges_to_ignore:\n                continue\n            # float(): the solver's `==` accepts Python numbers only, not numpy integer or float32 scalars\n            f_u_v = float(data[self.flow_attr])\n\n            self.solver.add_constraint(\n                self.solver.quicksum(float(self.solution_weights_superset[i])",
+                                  "        for u, v in self.G.edges():\n            if (u, v) in self.edges_to_ignore:\n                continue\n            f_u_v = float(self.G[u][v][self.flow_attr])\n\n            self.solver.add_constraint(\n                self.solver.quicksum(float(self.solution_weights_superset[i])", 1))
 # --- reader / translators / flow-safety threshold (round-2 seeds generalised)
 v("benign-reader-renamed-locals", B, (NED, "            for i in range(0, len(path) - 1, 2):\n                # Raise an error if the last two symbols of path[i] are not '.0'\n                if path[i][-2:] != '.0':",
                                         "            for pos in range(0, len(path), 2):\n                i = pos\n                if path[i][-2:] != '.0':", 1))
@@ -300,7 +300,15 @@ v("c15-source-flow-raw-sum", {"C15"}, (MFD, "                            self._s
 v("benign-source-flow-local", B, (MFD, "                            self._source_flow += data[self.flow_attr].item() if hasattr(data[self.flow_attr], \"item\") else data[self.flow_attr]", "                            flow_value = data[self.flow_attr]\n                            self._source_flow += flow_value.item() if hasattr(flow_value, \"item\") else flow_value", 1))
 v("c19-tolerance-nan-passes", {"C19"}, ("flowpaths/utils/solverwrapper.py", "        if not (self.tolerance >= 1e-9):", "        if self.tolerance < 1e-9:", 1))
 v("benign-tolerance-check-restyled", B, ("flowpaths/utils/solverwrapper.py", "        if not (self.tolerance >= 1e-9):", "        if not (1e-9 <= self.tolerance):", 1))
-v("c19-mfd-mingenset-guard-nan-blind", {"C19"}, (MFD, "        if any(not (self.G.edges[e][self.flow_attr] >= 0) for e in self.G.edges):", "        if any(self.G.edges[e][self.flow_attr] < 0 for e in self.G.edges):", 1))
+v("c19-mfd-mingenset-guard-nan-blind", {"C19"}, (MFD, "        if any(not (0 <= self.G.edges[e][self.flow_attr] < float(\"inf\")) for e in self.G.edges):", "        if any(self.G.edges[e][self.flow_attr] < 0 for e in self.G.edges):", 1))
+v("c19-mfd-mingenset-guard-inf-blind", {"C19"}, (MFD, "        if any(not (0 <= self.G.edges[e][self.flow_attr] < float(\"inf\")) for e in self.G.edges):", "        if any(not (self.G.edges[e][self.flow_attr] >= 0) for e in self.G.edges):", 1))
+v("benign-mfd-mingenset-guard-isfinite", B, (MFD, "        if any(not (0 <= self.G.edges[e][self.flow_attr] < float(\"inf\")) for e in self.G.edges):", "        if any(not math.isfinite(self.G.edges[e][self.flow_attr]) or self.G.edges[e][self.flow_attr] < 0 for e in self.G.edges):", 1))
+v("c19-mfd-int-of-infinite", {"C19"}, (MFD, " and e not in self.edges_to_ignore and math.isfinite(self.G.edges[e][self.flow_attr])})", " and e not in self.edges_to_ignore})", 1))
+v("c19-original-k-raw", {"C19"}, ("flowpaths/kminpatherror.py", ") <= int(self.original_k),", ") <= self.original_k,", 1))
+v("c16-wmax-over-ignored", {"C16", "C10"}, ("flowpaths/minerrorflow.py", "                if (u, v) not in self.edges_to_ignore\n            ] + [0]", "            ] + [0]", 1))
+v("c12-product-helper-raw-bounds", {"C12"}, ("flowpaths/utils/solverwrapper.py", "        lb, ub = float(lb), float(ub)\n", "", 1))
+v("c15-setcover-logger-member", {"C15"}, ("flowpaths/minsetcover.py", "            utils.logger.error(f\"{__name__}: Model not yet solved.", "            self.solver.logger.error(f\"{__name__}: Model not yet solved.", 1))
+
 v("c19-mfd-window-filter-unguarded", {"C19"}, (MFD, "                if isinstance(c, list) and all(isinstance(e, tuple) and len(e) == 2 and e in subgraph.edges for e in c)", "                if all(e in subgraph.edges for e in c)", 1))
 v("c11-subgraph-attrs-unpacked", {"C11"}, (GU, "            subgraph.add_edge(u, v)\n            subgraph[u][v].update(graph[u][v])", "            subgraph.add_edge(u, v, **graph[u][v])", 1))
 v("c07-constraint-length-raw-sum", {"C07"}, ("flowpaths/abstractpathmodeldag.py", "                        constraint_length = sum(float(self.G[u][v].get(self.length_attr, 1)) for (u,v) in self.subpath_constraints[j])", "                        constraint_length = sum(self.G[u][v].get(self.length_attr, 1) for (u,v) in self.subpath_constraints[j])", 1))
